@@ -3,10 +3,10 @@
    worked from ALL the document's snapshots / entries -- nothing defaulted, nothing skipped.
 
    The lemmas of the first part are generic in the shape (induction over items / fields); the `gen_*` lemmas read the
-   demands off the REGENERATED shapes (Gen/GenMeta.v) by computation: when the source stops demanding a section they
+   demands off the REGENERATED shapes (Gen/GenDoc.v) by computation: when the source stops demanding a section they
    no longer check, and the theorems of Props/C07.v stated through them are unproved. *)
 From Coq Require Import ZArith List Bool String Ascii Lia.
-Require Import DS.Model.PyStr DS.Gen.GenNorm DS.Model.GC DS.Model.Doc DS.Gen.GenMeta DS.Model.GCDoc.
+Require Import DS.Model.PyStr DS.Gen.GenNorm DS.Model.GC DS.Model.Doc DS.Gen.GenDoc DS.Model.GCDoc.
 Require Import DS.Proofs.GCProofs DS.Proofs.GCFaultProofs.
 Import ListNotations.
 Open Scope string_scope.
@@ -104,7 +104,7 @@ Proof.
   - rewrite (IH Hin Hn). destruct (py_getitem a k1) as [h|]; [|reflexivity]. destruct (py_getitem h k2) as [v|]; [destruct v|]; reflexivity.
 Qed.
 
-(* ---- the regenerated demands (computed on Gen/GenMeta.v) *)
+(* ---- the regenerated demands (computed on Gen/GenDoc.v) *)
 Lemma gen_metadata_demands_snapshot_lists : demands_section_strings gen_metadata_shape gen_snapshots_key gen_manifest_list_key = true.
 Proof. reflexivity. Qed.
 
